@@ -624,8 +624,33 @@ ThmConstMinimal ==
              /\ Pushed(DecOpAt(EncOp(Item(c, <<val>>, <<>>), bo, ps), 1, bo, ps).x) = val
     ELSE \A c \in ConstClasses : ~CanPush(c, val)
 
+\* the directive reading agrees with the instruction encodings: the bytes of
+\* an instruction as .cfi_escape operands, and the directive of the same name
+\* where GNU as has one with the same (unfactored, unsigned) operands
+DirectiveOf ==
+  [c \in {"DW_CFA_def_cfa", "DW_CFA_def_cfa_register", "DW_CFA_undefined",
+          "DW_CFA_same_value", "DW_CFA_register", "DW_CFA_restore",
+          "DW_CFA_restore_extended", "DW_CFA_remember_state", "DW_CFA_restore_state"} |->
+     CASE c = "DW_CFA_def_cfa" -> ".cfi_def_cfa"
+       [] c = "DW_CFA_def_cfa_register" -> ".cfi_def_cfa_register"
+       [] c = "DW_CFA_undefined" -> ".cfi_undefined"
+       [] c = "DW_CFA_same_value" -> ".cfi_same_value"
+       [] c = "DW_CFA_register" -> ".cfi_register"
+       [] c \in {"DW_CFA_restore", "DW_CFA_restore_extended"} -> ".cfi_restore"
+       [] c = "DW_CFA_remember_state" -> ".cfi_remember_state"
+       [] c = "DW_CFA_restore_state" -> ".cfi_restore_state"]
+ThmDirective ==
+  kind = "enc" /\ fam = "inst" /\ Len(xs) = 1 /\ InRange(fam, xs[1], ps) =>
+    LET by == EncInst(xs[1], bo, ps)
+        esc == DirBytes(".cfi_escape", [i \in 1..Len(by) |-> NatV(by[i])])
+        \* .cfi_restore r with r < 64 is the short form
+        short == xs[1].c = "DW_CFA_restore_extended" /\ FieldOK("fused", xs[1].a[1], ps, 64)
+    IN  /\ esc.ok /\ esc.by = by
+        /\ (xs[1].c \in DOMAIN DirectiveOf /\ ~short) =>
+             LET d == DirBytes(DirectiveOf[xs[1].c], xs[1].a) IN d.ok /\ d.by = by
+
 Theorems == /\ ThmRoundTrip /\ ThmPrefixFree /\ ThmParseConcat
-            /\ ThmFirstByte /\ ThmConstMinimal
+            /\ ThmFirstByte /\ ThmConstMinimal /\ ThmDirective
 
 CaseJson == [kind |-> kind, fam |-> fam, bo |-> bo, ps |-> ps, xs |-> xs,
              raw |-> raw, v |-> val, tail |-> Sentinel]
